@@ -1,5 +1,6 @@
 mod c04;
 mod c04wire;
+mod c13;
 mod c14;
 mod driver;
 mod report;
@@ -22,6 +23,7 @@ fn main() {
     let rep = match stream {
         "c04" => c04::run(&tier, seed, &driver, chunk, &work),
         "c04wire" => c04wire::run(&tier, seed, &driver, &work),
+        "c13" => c13::run(&tier, seed, &driver, &work),
         "c14" => c14::run(&tier, seed, &driver, &work),
         _ => { eprintln!("unknown stream {}", stream); std::process::exit(2); }
     };
